@@ -411,6 +411,7 @@ func runE2E(log *tr.Log, sc *e2eScen, rng *rand.Rand, tmpdir string, big bool) e
 		log.Ev("CS", tr.M{"i": i, "tok": 100 * i})
 		// single-reply calls go through Connection.Call half of the time, the others through Send + receive
 		useCall := total == 1 && rng.Intn(2) == 0
+		nilOut := useCall && rng.Intn(3) == 0 // the caller is not interested in the reply's parameters
 		var recv func(context.Context, interface{}) (uint64, error)
 		if !useCall {
 			recv, err = conn.Send(ctx, "e2e.t.Echo", params, flags)
@@ -423,13 +424,17 @@ func runE2E(log *tr.Log, sc *e2eScen, rng *rand.Rand, tmpdir string, big bool) e
 			var out json.RawMessage
 			var fl uint64
 			var err error
-			if useCall {
+			if useCall && nilOut {
+				err = conn.Call(ctx, "e2e.t.Echo", params, nil)
+			} else if useCall {
 				err = conn.Call(ctx, "e2e.t.Echo", params, &out)
 			} else {
 				fl, err = recv(ctx, &out)
 			}
-			ev := tr.M{"i": i, "j": j, "continues": fl&varlink.Continues != 0, "kind": "reply", "tok": -3, "name_ok": true}
-			if err == nil {
+			ev := tr.M{"i": i, "j": j, "continues": fl&varlink.Continues != 0, "kind": "reply", "tok": -3, "name_ok": true, "nilout": nilOut}
+			if err == nil && nilOut {
+				ev["tok"] = -5 // not observable
+			} else if err == nil {
 				ev["tok"] = toks.find(out)
 			} else {
 				var ve *varlink.Error
